@@ -51,3 +51,15 @@ Theorem C19_debug_conservative : forall cfg s h, Inv s -> key32 h ->
   resolve_entity (with_debug cfg true) s h <> RPanic PDebug ->
   resolve_entity (with_debug cfg true) s h = resolve_entity (with_debug cfg false) s h.
 Proof. exact resolve_entity_debug_conservative. Qed.
+
+(* ---------------------------------------------------------------- run level *)
+From Gecs Require Import Query World Borrow Run WorldInv.
+
+(** In every feature combination the model distinguishes (wrapping_version, events) and with debug
+    assertions on or off, no history reaches undefined behaviour: wraparound may let an old handle
+    match again, but every state stays invariant. *)
+Theorem C19_no_configuration_reaches_ub : forall wrapping events debug d qs ops, wf_case d ops = true ->
+  exists sts, run_states (Config wrapping events debug) d qs rs0 ops = Some sts /\ Forall (RInv d) sts.
+Proof.
+  intros wr ev dbg d qs ops H. destruct (wf_case_never_ub (Config wr ev dbg) d qs ops H) as (sts & ? & ? & _). by exists sts.
+Qed.
